@@ -56,7 +56,7 @@ pub fn run(ctx: &Ctx) -> CheckResult {
     order.sort_by_key(|&i| if bases[i].name.contains("extra/") { 0 } else { 1 });
     order.truncate(n_items);
     order.sort();
-    let per_file = if quick { 110 } else { 600 };
+    let per_file = if quick { 85 } else { 600 };
     let mut work: Vec<(usize, usize, Vec<Corruption>)> = vec![];
     let mut n_space = 0usize;
     let mut kinds: BTreeMap<&'static str, u64> = BTreeMap::new();
@@ -91,7 +91,7 @@ pub fn run(ctx: &Ctx) -> CheckResult {
     // torn writes between two sources of the same format: the head of one script followed by the tail
     // of another, cut at statement boundaries.  Sources of one format share their header, so this
     // recombines statements of different scripts into programs no test contains.
-    let n_torn = if quick { 8 } else { 120 };
+    let n_torn = if quick { 6 } else { 120 };
     let mut n_torn_total = 0usize;
     for (bi, c) in bases.iter().enumerate() {
         let ii = match c.inputs.iter().position(|i| i.path == scen::SRC) {
